@@ -288,3 +288,5 @@ META = {
                    'derivation does (value level)',
     'technique': 'partial-order rule on detector calls + tag-chain table (scorer column) + effect-set rule over the call graph',
 }
+
+META['explanation'] += ' ' + 'Further: the guesser inserts a capitalisation transition after every alpha transition (shared from C03); alpha words use lower() only.'
